@@ -12,7 +12,7 @@
 (* drift  (specification/implementation mismatch) and printed at the end.  *)
 (* Many traces are concatenated in one file; an "Init" line resets.        *)
 (***************************************************************************)
-EXTENDS Core, Store, CodecCases, Json, IOUtils
+EXTENDS Core, Store, CodecCases, ProxyCases, Json, IOUtils
 
 TraceFile == IOEnv.TRACE_FILE
 Trace == ndJsonDeserialize(TraceFile)
@@ -69,7 +69,7 @@ EvRec(x) ==
 Bump(s, k) == [ s EXCEPT ![k] = @ + 1 ]
 Stats0 == [ lines |-> 0, syncs |-> 0, inserts |-> 0, blocks |-> 0, traces |-> 0,
             creates |-> 0, fameDecided |-> 0, coinVotes |-> 0, skipped |-> 0,
-            stw |-> 0, str |-> 0, crashes |-> 0, boots |-> 0, codec |-> 0 ]
+            stw |-> 0, str |-> 0, crashes |-> 0, boots |-> 0, codec |-> 0, proxy |-> 0 ]
 
 -----------------------------------------------------------------------------
 (* Property invariants on observed state                                   *)
@@ -1154,6 +1154,50 @@ TraceCodec ==
     /\ stats' = [ stats EXCEPT !.lines = @ + 1, !.codec = @ + 1 ]
     /\ UNCHANGED << pst, D, nodes, dlv, sto, psto, rrv, meta, cev, ctx, base, last, pools, lostSet, evals, fames, ref, sub >>
 
+-----------------------------------------------------------------------------
+(* proxy mode (C20): one executed case of ProxyCases.tla                    *)
+
+\* the acknowledged transactions arrive, byte-identical, in submission order
+\* (a retried call may deliver one twice; nothing else may arrive)
+RECURSIVE IsSubseq(_, _, _, _)
+IsSubseq(a, b, i, j) ==
+    IF i > Len(a) THEN TRUE
+    ELSE IF j > Len(b) THEN FALSE
+    ELSE IF a[i] = b[j] THEN IsSubseq(a, b, i + 1, j + 1) ELSE IsSubseq(a, b, i, j + 1)
+
+ProxyOutcome(x, o) ==
+    LET d == x.kind \o ":" \o x.via \o ":" \o x.fault IN
+    CASE x.kind = "commit" ->
+           LET okRuns == { k \in 1..Len(o.runs) : ~o.runs[k].err } IN
+           ChecksD("C20", "Inv_C20_BlockIdentical", d,
+                   \A k \in 1..Len(o.runs) : o.runs[k].h = o.sent_h /\ o.runs[k].p = o.sent_p)
+           \cup ChecksD("C20", "Inv_C20_ResponseIdentical", d,
+                        o.ok => (o.resp_got = o.resp_sent /\ \E k \in okRuns : o.runs[k].resp = o.resp_got))
+           \cup ChecksD("C20", "Inv_C20_NoEmptySuccess", d, o.ok => okRuns # {})
+           \cup ChecksD("C20", "Inv_C20_HandlerErrorReported", d, (o.herr /\ okRuns = {}) => ~o.ok)
+           \cup ChecksD("C20", "Inv_C20_InmemNeverFailsByItself", d, (x.via = "inmem" /\ ~o.herr) => o.ok)
+      [] x.kind = "snapshot" ->
+           ChecksD("C20", "Inv_C20_SnapshotIdentical", d,
+                   /\ o.get_same
+                   /\ \A k \in 1..Len(o.restore_seen) : o.restore_seen[k] = o.want)
+           \cup ChecksD("C20", "Inv_C20_NoEmptySuccess", d,
+                        /\ o.get_ok => o.get_runs_ok > 0
+                        /\ o.restore_ok => o.restore_runs_ok > 0)
+      [] x.kind = "submit" ->
+           LET sentIds == { o.sent[k].id : k \in 1..Len(o.sent) } IN
+           ChecksD("C20", "Inv_C20_SubmitIdentical", d,
+                   /\ \A k \in 1..Len(o.received) : o.received[k] \in sentIds \cup {"probe"}
+                   /\ IsSubseq(AsSeq(o.acked), AsSeq(o.received), 1, 1))
+           \cup ChecksD("C20", "Inv_C20_InmemNeverFailsByItself", d, x.via = "inmem" => Len(o.acked) = Len(o.sent))
+      [] OTHER -> {}
+
+TraceProxy ==
+    /\ Line.a = "Proxy"
+    /\ viol' = AddCapped(viol, ProxyOutcome(Line.x, Line.o))
+    /\ drift' = AddCapped(drift, Checks("-", "Conf_Proxy_CaseOfSpec", IsProxyCase(Line.x)))
+    /\ stats' = [ stats EXCEPT !.lines = @ + 1, !.proxy = @ + 1 ]
+    /\ UNCHANGED << pst, D, nodes, dlv, sto, psto, rrv, meta, cev, ctx, base, last, pools, lostSet, evals, fames, ref, sub >>
+
 \* lines that carry no specification step (the driver could not run the step)
 TraceNoop ==
     /\ Line.a \in { "SyncFail", "Note", "StateChange" }
@@ -1167,7 +1211,7 @@ TraceStep ==
        \/ TraceQuorum \/ TraceQuorumAccept \/ TraceMedian \/ TraceHgInsert \/ TraceInstance
        \/ TraceNodeUp \/ TraceAddItx \/ TraceOpDone \/ TraceOffer \/ TraceLiveCheck \/ TraceFFOffer
        \/ TraceRpc \/ TraceStateRpc \/ TraceHeartbeat \/ TraceBytes
-       \/ TraceStW \/ TraceStR \/ TraceCrash \/ TraceBootstrap \/ TraceCodec
+       \/ TraceStW \/ TraceStR \/ TraceCrash \/ TraceBootstrap \/ TraceCodec \/ TraceProxy
 
 TraceDone ==
     /\ l = NLines + 1
